@@ -275,6 +275,89 @@ def check_deep(case, ctx):
         raise found[0]
 
 
+# ------------------------------------------------------------------------------------ reference tokenizer + fuzz
+import re as _re
+
+_TOK = _re.compile(r"^([0-9]+)(['h]?)$")
+
+
+def classify_path(s):
+    """-> ('valid', list, root) | ('malformed', why) | ('lenient', why) | ('deep', n).
+
+    'lenient' = the statement does not classify the string (int()-tolerated tokens, trailing '/')."""
+    parts = s.split("/")
+    if parts[0] not in ("m", "M"):
+        return ("malformed", "root")
+    comps = parts[1:]
+    while comps and comps[-1] == "":
+        comps = comps[:-1]
+        trailing = True
+    else:
+        trailing = len(parts) - 1 != len(comps)
+    if len(comps) > 5:
+        return ("deep", len(comps))   # everything past the fifth level is the listed known finding's root cause
+    if any(c == "" for c in comps):
+        return ("malformed", "empty-inner")
+    out = []
+    lenient = trailing
+    for c in comps:
+        m = _TOK.match(c)
+        if m and c.isascii():
+            v = int(m.group(1))
+            if m.group(2):
+                if v >= H:
+                    return ("malformed", "range")
+                v += H
+            elif v >= 2 ** 32:
+                return ("malformed", "range")
+            if len(m.group(1)) > 1 and m.group(1)[0] == "0":
+                lenient = True   # leading zeros: read as the number, not classified by the statement
+            out.append(v)
+            continue
+        core = c[:-1] if c[-1:] in ("'", "h") else c
+        try:
+            v = int(core)
+        except ValueError:
+            return ("malformed", "junk")
+        # int() accepted something that is not plain ASCII digits: sign, spaces, underscores, other digits
+        if v < 0 or v >= (H if core != c else 2 ** 32):
+            return ("malformed", "range")
+        lenient = True
+        out.append(v + (H if core != c else 0))
+    if lenient:
+        return ("lenient", out)
+    return ("valid", out, parts[0])
+
+
+FUZZ_ALPHA = "mM/0123456789'h-+ _x.e²٣"
+
+
+def check_fuzz(case, ctx):
+    Bip32Path, BaseWallet, B85 = _impl()
+    d = case["data"]
+    s = "".join(FUZZ_ALPHA[b % len(FUZZ_ALPHA)] for b in d)
+    if d and d[0] & 0x80:
+        s = "m/" + s[1:]
+    cls = classify_path(s)
+    st_, p = call(Bip32Path.parse, s)
+    ctx.count("fuzz:" + cls[0])
+    if cls[0] == "valid":
+        if st_ == "exc":
+            raise Violation("C17/fuzz/valid-refused", "Bip32Path.parse(%r) raised %r" % (s, p))
+        if list(p.to_list()) != cls[1] or str(p) != R.fmt_path(cls[1], cls[2]):
+            raise Violation("C17/fuzz/valid-misread", "Bip32Path.parse(%r) -> %r / %s, expected %r" % (s, p.to_list(), p, cls[1]))
+    elif cls[0] == "malformed":
+        if st_ == "ok":
+            raise Violation("C17/fuzz/malformed-accepted[%s]" % cls[1], "Bip32Path.parse(%r) returned %s" % (s, _safe_str(p)))
+    elif cls[0] == "lenient":
+        if st_ == "ok" and list(p.to_list()) != cls[1]:
+            raise Violation("C17/fuzz/lenient-misread", "Bip32Path.parse(%r) -> %r, obvious reading %r" % (s, p.to_list(), cls[1]))
+    # 'deep' strings are the listed known finding's territory and are judged by the deep clause
+
+
+FUZZ_CORPUS = [b"\x00\x02\x06\x06\x0c\x02\x03", b"m/44'/0'/0'/0/0", bytes([0x80, 2, 3, 12, 2, 4, 13])]
+
+
 def clauses():
     return [
         Clause("parse-format", check_parse,
@@ -312,4 +395,13 @@ def clauses():
                                                        "seed": S.seeds(16, 32)}),
                classes=lambda c: ["len=%d" % len(c["path"])],
                n={"quick": 300, "thorough": 15000}, shards={"quick": 16, "thorough": 16}),
+        Clause("fuzz-parse", check_fuzz,
+               "raw bytes mapped to strings over \"mM/0-9'h-+ _x.e\" plus non-ASCII digits; an independent tokenizer "
+               "classifies each string as valid / malformed / lenient / deep and Bip32Path.parse must agree (valid -> "
+               "that list and canonical form, malformed -> raises); hypothesis st.binary and atheris/libFuzzer campaigns",
+               gen=lambda tier: st.fixed_dictionaries({"data": st.binary(max_size=40)}),
+               nontrivial=lambda c: len(c["data"]) >= 3,
+               n={"quick": 4000, "thorough": 200000}, shards={"quick": 4, "thorough": 8},
+               fuzz={"runs": {"quick": 30000, "thorough": 1500000}, "campaigns": {"quick": 2, "thorough": 8},
+                     "max_len": 60, "corpus": FUZZ_CORPUS}),
     ]
